@@ -47,7 +47,7 @@ def cleanup(name):
 
 
 def run(module, cfg=None, workers=1, env=None, timeout=3600, simulate=None, depth=None, seed=None,
-        wd=None, coverage=False, heap="6g", expect_violation=False, deadlock=None, extra=()):
+        wd=None, coverage=False, heap="6g", expect_violation=False, deadlock=None, extra=(), lazy_exports=False):
     """Run TLC on spec module `module` (path relative to spec/ or absolute).  Returns TlcResult.
 
     A TLC run that fails for any reason other than a reported property violation raises MachineryFailure.
@@ -88,6 +88,9 @@ def run(module, cfg=None, workers=1, env=None, timeout=3600, simulate=None, dept
     r.stdout = p.stdout
     for line in p.stdout.splitlines():
         if line.startswith('"{') or line.startswith('"['):
+            if lazy_exports:           # very large export sets: keep the text, the consumer parses (parse_export) one at a time
+                r.exports.append(line)
+                continue
             try:
                 r.exports.append(json.loads(json.loads(line)))
             except ValueError:
@@ -122,7 +125,16 @@ def run(module, cfg=None, workers=1, env=None, timeout=3600, simulate=None, dept
     shutil.rmtree(meta, ignore_errors=True)
     if own:
         shutil.rmtree(wd, ignore_errors=True)
+    if lazy_exports:
+        r.stdout = ""
     return r
+
+
+def parse_export(line):
+    try:
+        return json.loads(json.loads(line))
+    except ValueError:
+        raise MachineryFailure("unparsable export line from TLC: %.200s" % line)
 
 
 def run_many(jobs, parallel=16):
